@@ -339,6 +339,12 @@ def getitem(I, obj, idx):
         raise PyExc('KeyError', idx)
     if isinstance(obj, (SV, int, float)):
         raise PyExc('TypeError', 'not subscriptable')
+    if isinstance(obj, RangeV) and all(isinstance(v, int) and not isinstance(v, bool) for v in (obj.lo, obj.hi, obj.step)) \
+            and isinstance(idx, int) and not isinstance(idx, bool):
+        try:
+            return range(obj.lo, obj.hi, obj.step)[idx]
+        except IndexError:
+            raise PyExc('IndexError', 'range object index out of range')
     raise Unsupported('subscript of %r' % (obj,))
 
 
@@ -1428,6 +1434,17 @@ def setattr(I, obj, name, v):
     raise Unsupported('attribute assignment on %r' % (obj,))
 
 
+_LIST_ATTRS = frozenset(dir(list))
+try:
+    import numpy as _np
+    _NDARRAY_ATTRS = frozenset(dir(_np.ndarray))
+except Exception:       # noqa
+    _NDARRAY_ATTRS = frozenset(['__len__', '__iter__', '__getitem__', '__setitem__', '__array__', 'shape', 'dtype', 'size', 'ndim', 'T',
+                                'flat', 'copy', 'tolist', 'astype', 'sum', 'max', 'min', 'any', 'all', 'mean', 'ravel', 'flatten',
+                                'reshape', 'transpose', 'clip', 'sort', 'argsort', 'fill', 'item', 'dot', 'prod', 'std', 'var',
+                                'cumsum', 'round', 'squeeze', 'take', 'put', 'repeat', 'nonzero', 'argmax', 'argmin', 'ptp'])
+
+
 def container_method(I, obj, name):
     st = I.st
     kind = obj.kind
@@ -1523,6 +1540,21 @@ def container_method(I, obj, name):
             return obj
         if name in ('shape',):
             return (list_len(I, obj),)
+        if name == 'ndim' and obj.nd:
+            if obj.kind == 'clist' and st.heap[obj] and all(is_list(x) for x in st.heap[obj]):
+                inner = st.heap[obj][0]
+                if inner.kind == 'clist' and any(is_list(y) for y in st.heap[inner]):
+                    raise Unsupported('ndim of an array with more than two dimensions')
+                return 2
+            if obj.kind == 'rows':
+                return 2
+            return 1
+        if name == 'transpose' and obj.nd:
+            def tr(I_, a, k):
+                if a or k:
+                    raise Unsupported('transpose with axes')
+                return getattr(I_, obj, 'T')
+            return B(tr)
         if name == 'size' and obj.nd:
             if obj.kind == 'clist' and any(is_list(x) for x in st.heap[obj]):
                 raise Unsupported('size of a 2-d array')
@@ -1543,9 +1575,23 @@ def container_method(I, obj, name):
             return B(count)
         if name in ('sort', 'reverse', 'remove', 'count'):
             raise Unsupported('list.%s' % name)
-        if name in ('sum', 'max', 'min', 'any', 'all', 'ravel', 'flatten', 'mean'):
+        if name in ('sum', 'max', 'min', 'any', 'all', 'ravel', 'flatten', 'mean') and obj.nd:
             f = lib_lookup(I, 'numpy.' + name)
             return B(lambda I_, a, k: I_.call(f, [obj] + a, k))
+        if name == '__len__':
+            return B(lambda I_, a, k: list_len(I_, obj))
+        if name == '__getitem__':
+            return B(lambda I_, a, k: getitem(I_, obj, a[0]))
+        if name == '__setitem__':
+            return B(lambda I_, a, k: setitem(I_, obj, a[0], a[1]))
+        if name == '__iter__':
+            return B(lambda I_, a, k: IterV(obj))
+        if name == '__contains__':
+            return B(lambda I_, a, k: contains(I_, obj, a[0]))
+        # an attribute python lists / numpy arrays really have but this model does not cover is NOT an AttributeError
+        # (hasattr / getattr-with-default in the analysed code must not take the wrong branch silently)
+        if name in _LIST_ATTRS or (obj.nd and name in _NDARRAY_ATTRS):
+            raise Unsupported('%s.%s' % ('ndarray' if obj.nd else 'list', name))
         raise PyExc('AttributeError', name)
     if kind == 'dict':
         cell = st.heap[obj]
